@@ -29,6 +29,7 @@ impl Compiler {
             scope_depth: 0,
             next_register: 0,
             has_no_gc: false,
+            jump_out_of_range: false,
             heap: Heap::new(),
             register_pool: fresh_register_pool(),
             globals: HashMap::new(),
@@ -65,6 +66,7 @@ impl Compiler {
             scope_depth: 0,
             next_register: 0,
             has_no_gc: false,
+            jump_out_of_range: false,
             heap,
             register_pool: fresh_register_pool(),
             globals,
@@ -114,6 +116,7 @@ impl Compiler {
             scope_depth: 0,
             next_register: 0,
             has_no_gc: false,
+            jump_out_of_range: false,
             heap,
             register_pool: fresh_register_pool(),
             globals,
@@ -151,6 +154,7 @@ impl Compiler {
             scope_depth: 0,
             next_register: 0,
             has_no_gc: false,
+            jump_out_of_range: false,
             heap: Heap::new(),
             register_pool: fresh_register_pool(),
             globals: HashMap::new(),
@@ -190,6 +194,7 @@ impl Compiler {
             scope_depth: 0,
             next_register: 0,
             has_no_gc: false,
+            jump_out_of_range: false,
             heap: Heap::new(),
             register_pool: fresh_register_pool(),
             globals,
